@@ -182,7 +182,7 @@ func send(c *Ctx, cl *world.Client, u *Up) world.Res {
 		return r
 	case WPHTTPZ:
 		q := world.HTTPReq{Method: "PUT", Path: "/cas/" + u.DeclHash, CLen: int64(len(u.Wire)), FailAt: -1, ParkAt: -1,
-			Body: world.LimitBody(body(u.Wire), int64(len(u.Wire))),
+			Body:   world.LimitBody(body(u.Wire), int64(len(u.Wire))),
 			Header: map[string]string{"X-Digest-SizeBytes": strconv.FormatInt(u.DeclSize, 10), "Content-Encoding": "zstd"}}
 		r, _ := cl.HTTP(q)
 		return r
